@@ -885,7 +885,6 @@ struct StateBuilder
         std::vector< std::string > trace = st.prep;
         trace.push_back( mc::fmt( "eval c%d out=512 ", con_no ) + mc::hex( pdu ) );
         const std::vector< Failure > fails = o.fails;
-        std::vector< std::uint8_t > keep( w.regs.size() );
         for ( auto& f : fails )
             record( f, trace, ( std::uint64_t( trace.size() ) << 32 ) | ( std::uint64_t( pdu.size() ) << 16 ) | 0xFFFFu );
         return false;
